@@ -506,6 +506,19 @@ def _known_overrun(ctx):
 MUTANTS = [
     Mutant("revert-F25a-strict-decode-in-handler", S, "f\"{byteRange.decode('utf-8', 'replace')!r}\"", "f\"{byteRange.decode()!r}\""),
     Mutant("revert-F25b-unclamped-suffix", S, "            start = max(size - end, 0)\n", "            start = size - end\n"),
+    Mutant("revert-F25c-unsatisfiable-multi-returns-tuple", S, "            return [(b\"\", 0, 0)]\n", "            return [], b\"\"\n", expect_rule="range/multi-unsatisfiable"),
+    Mutant("revert-F25d-int-alone-parses-positions", S,
+           "                if not start.strip().isdigit():\n                    raise ValueError(f\"Invalid Byte-Range: {byteRange!r}\")\n                start = int(start)\n",
+           "                try:\n                    start = int(start)\n                except ValueError:\n                    raise ValueError(f\"Invalid Byte-Range: {byteRange!r}\")\n",
+           expect_rule="range/lenient-integers",
+           more=[(S, "                if not end.strip().isdigit():\n                    raise ValueError(f\"Invalid Byte-Range: {byteRange!r}\")\n                end = int(end)\n",
+                  "                try:\n                    end = int(end)\n                except ValueError:\n                    raise ValueError(f\"Invalid Byte-Range: {byteRange!r}\")\n")]),
+    Mutant("revert-F25e-empty-range-set-accepted", S, "        if not parsedRanges:\n            # A Range header must contain at least one byte range.\n            raise ValueError(\"Missing Byte-Range\")\n", "",
+           expect_rule="range/empty-range-set"),
+    Mutant("revert-F25f-negative-read-length", S, "                    max(self.bufferSize - dataLength, 0),\n", "                    self.bufferSize - dataLength,\n", expect_rule="range/part-boundary-overruns-buffer"),
+    Mutant("digit-test-on-start-only", S, "                if not end.strip().isdigit():\n                    raise ValueError(f\"Invalid Byte-Range: {byteRange!r}\")\n                end = int(end)\n",
+           "                try:\n                    end = int(end)\n                except ValueError:\n                    raise ValueError(f\"Invalid Byte-Range: {byteRange!r}\")\n",
+           expect_rule="range/lenient-integers"),
     Mutant("last-byte-inclusive-off-by-one", S, "        elif end < size:\n            end += 1\n", "        elif end < size - 1:\n            end += 1\n"),
     Mutant("start-at-size-satisfiable", S, "        if start >= size:\n            start = end = 0\n", "        if start > size:\n            start = end = 0\n"),
     Mutant("content-range-exclusive-end", S, "\"bytes %d-%d/%d\" % (offset, offset + size - 1, self.getFileSize())", "\"bytes %d-%d/%d\" % (offset, offset + size, self.getFileSize())"),
@@ -520,17 +533,24 @@ MUTANTS = [
     Mutant("multi-keeps-unsatisfiable-part", S, "            if partOffset == partSize == 0:\n                continue\n", ""),
     Mutant("single-read-unbounded", S, "        data = self.fileObject.read(min(self.bufferSize, self.size - self.bytesWritten))", "        data = self.fileObject.read(self.bufferSize)"),
     Mutant("single-no-seek", S, "        self.fileObject.seek(self.offset)\n        self.bytesWritten = 0\n", "        self.bytesWritten = 0\n"),
-    Mutant("multi-read-ignores-part-size", S, "                min(\n                    self.bufferSize - dataLength,\n                    self._partSize - self._partBytesWritten,\n                )",
-           "                min(\n                    self.bufferSize - dataLength,\n                    self._partSize,\n                )"),
+    Mutant("multi-read-ignores-part-size", S, "                min(\n                    max(self.bufferSize - dataLength, 0),\n                    self._partSize - self._partBytesWritten,\n                )",
+           "                min(\n                    max(self.bufferSize - dataLength, 0),\n                    self._partSize,\n                )"),
     Mutant("dispatch-single-for-first-of-many", S, "        if len(parsedRanges) == 1:\n            offset, size", "        if len(parsedRanges) >= 1:\n            offset, size"),
 ]
 SILENT = [
-    Silent("range-spec-parsing-in-helpers", S, "            if start:\n                try:\n                    start = int(start)\n                except ValueError:\n                    raise ValueError(f\"Invalid Byte-Range: {byteRange!r}\")\n            else:\n                start = None\n",
+    Silent("range-spec-parsing-in-helpers", S,
+           "            if start:\n                if not start.strip().isdigit():\n                    raise ValueError(f\"Invalid Byte-Range: {byteRange!r}\")\n                start = int(start)\n            else:\n                start = None\n",
            "            start = self._position(start, byteRange)\n",
-           more=[(S, "    def _rangeToOffsetAndSize(self, start, end):", "    @staticmethod\n    def _position(text, spec):\n        if not text:\n            return None\n        try:\n            return int(text)\n        except ValueError:\n            raise ValueError(f\"Invalid Byte-Range: {spec!r}\")\n\n    def _rangeToOffsetAndSize(self, start, end):")]),
+           more=[(S, "    def _rangeToOffsetAndSize(self, start, end):",
+                  "    @staticmethod\n    def _position(text, spec):\n        if not text:\n            return None\n        if not text.strip().isdigit():\n            raise ValueError(f\"Invalid Byte-Range: {spec!r}\")\n        return int(text)\n\n    def _rangeToOffsetAndSize(self, start, end):")]),
     Silent("no-range-producer-helper-and-flagless-multi", S, "        if not matchingRangeFound:\n            request.setResponseCode(http.REQUESTED_RANGE_NOT_SATISFIABLE)", "        if len(rangeInfo) == 0:\n            request.setResponseCode(http.REQUESTED_RANGE_NOT_SATISFIABLE)"),
-    Silent("int-conversion-outside-try-still-valueerror", S, "            if end:\n                try:\n                    end = int(end)\n                except ValueError:\n                    raise ValueError(f\"Invalid Byte-Range: {byteRange!r}\")\n",
-           "            if end:\n                end = int(end)\n"),
+    Silent("digit-test-branches-swapped", S, "                if not end.strip().isdigit():\n                    raise ValueError(f\"Invalid Byte-Range: {byteRange!r}\")\n                end = int(end)\n",
+           "                if end.strip().isdigit():\n                    end = int(end)\n                else:\n                    raise ValueError(f\"Invalid Byte-Range: {byteRange!r}\")\n"),
+    Silent("empty-range-set-tested-before-the-loop", S, "        if not parsedRanges:\n            # A Range header must contain at least one byte range.\n            raise ValueError(\"Missing Byte-Range\")\n", "",
+           more=[(S, "        parsedRanges = []\n        for byteRange in unparsedRanges:", "        if len(unparsedRanges) == 0:\n            raise ValueError(\"Missing Byte-Range\")\n        parsedRanges = []\n        for byteRange in unparsedRanges:")]),
+    Silent("unsatisfiable-multi-empty-part-as-list-of-one", S, "            return [(b\"\", 0, 0)]\n", "            noPart = (b\"\", 0, 0)\n            return [noPart]\n"),
+    Silent("buffer-room-clamped-by-name", S, "            p = self.fileObject.read(\n                min(\n                    max(self.bufferSize - dataLength, 0),\n                    self._partSize - self._partBytesWritten,\n                )\n            )",
+           "            room = self.bufferSize - dataLength\n            if room < 0:\n                room = 0\n            p = self.fileObject.read(min(room, self._partSize - self._partBytesWritten))"),
     Silent("parts-loop-enumerate", S, "        for start, end in byteRanges:\n            partOffset, partSize", "        for _idx, (start, end) in enumerate(byteRanges):\n            partOffset, partSize"),
     Silent("reversed-range-flattened-with-none-tests", S, "            if start is not None:\n                if end is not None and start > end:\n                    # Start must be less than or equal to end or it is invalid.\n                    raise ValueError(f\"Invalid Byte-Range: {byteRange!r}\")\n            elif end is None:",
            "            if start is not None and end is not None and start > end:\n                raise ValueError(f\"Invalid Byte-Range: {byteRange!r}\")\n            if start is None and end is None:"),
